@@ -433,7 +433,9 @@ class XMIResource(Resource):
                     node.append(entry)
             elif feat.is_attribute:
                 etype = feat._eType
-                if feat.many and value:
+                if feat.many and not value:
+                    continue  # an empty collection has nothing to write
+                if feat.many:
                     to_str = etype.to_string
                     has_special_char = False
                     result_list = []
